@@ -533,7 +533,7 @@ fn index_set(mut left: Object, index: Object, value: Object) -> Result<Object, E
     }
     match left.tag() {
         Type::Array => index_set_array(left.as_vec_mut(), index.as_int(), value)?,
-        Type::String => index_set_string(left.as_string_mut(), index.as_int(), value)?,
+        Type::String => index_set_string(left, index.as_int(), value)?,
         _ => {
             return Err(Error::TypeError(format!(
                 "kan niet indexeren in objecten van type {}",
@@ -559,8 +559,8 @@ fn index_set_array(array: &mut Vec<Object>, mut index: isize, value: Object) -> 
     Ok(())
 }
 
-fn index_set_string(string: &mut String, mut index: isize, value: Object) -> Result<(), Error> {
-    let strlen = string.chars().count();
+fn index_set_string(mut target: Object, mut index: isize, value: Object) -> Result<(), Error> {
+    let strlen = target.as_str().chars().count();
     if index < 0 {
         index += strlen as isize;
     }
@@ -577,13 +577,17 @@ fn index_set_string(string: &mut String, mut index: isize, value: Object) -> Res
         ));
     }
 
+    // The value can be the very same object as the target (eg. s[0] = s)
+    // So copy the replacement text before we start mutating the target
+    let replacement = value.as_str().to_owned();
+    let string = target.as_string_mut();
     string.replace_range(
         string
             .char_indices()
             .nth(index)
             .map(|(pos, ch)| (pos..pos + ch.len_utf8()))
             .unwrap(),
-        value.as_str(),
+        &replacement,
     );
 
     Ok(())
